@@ -595,6 +595,18 @@ impl<'a, K: HashKind> Case<'a, K> {
         }
     }
 
+    /// A full hash table is a legitimate reason for any commit (or rollback) to be refused: C14
+    /// covers how it must fail; here the history simply ends without a verdict.
+    fn ended_by_exhaustion(&mut self, e: &str) -> bool {
+        if e.contains("bucket exhaustion") {
+            self.rep.feat("histories_ended_by_bucket_exhaustion", 1);
+            self.sut.dead = true;
+            true
+        } else {
+            false
+        }
+    }
+
     fn describe_batch(b: &Batch) -> String {
         let mut r = 0;
         let mut w = 0;
@@ -891,6 +903,11 @@ impl<'a, K: HashKind> Case<'a, K> {
         self.rep.eval(prop, nontrivial);
         match guard(|| db.rollback(n)) {
             Ok(Ok(())) => {}
+            Ok(Err(e)) if format!("{e:#}").contains("bucket exhaustion") => {
+                self.rep.feat("histories_ended_by_bucket_exhaustion", 1);
+                self.sut.dead = true;
+                return false;
+            }
             Ok(Err(e)) => {
                 let m = format!("{e:#}");
                 self.rep.fail(
@@ -1314,6 +1331,9 @@ impl<'a, K: HashKind> Case<'a, K> {
                     self.rep.merge(sub);
                     self.quiescent("overlay-commit");
                 }
+                Ok(Err(e)) if self.ended_by_exhaustion(&e) => {
+                    return;
+                }
                 Ok(Err(e)) => {
                     self.rep.fail("C11", &format!("valid-overlay-commit-refused:{}", msg_class(&e)), format!("{ctx}: {e}"));
                     return;
@@ -1559,6 +1579,9 @@ impl<'a, K: HashKind> Case<'a, K> {
                 self.rep.merge(sub);
                 self.rep.feat("overlay_commits", 1);
                 self.quiescent("overlay-commit");
+            }
+            Ok(Err(e)) if self.ended_by_exhaustion(&e) => {
+                self.ovs[i].status = OvStatus::Gone;
             }
             Ok(Err(e)) => {
                 self.ovs[i].status = OvStatus::Gone;
@@ -1867,7 +1890,7 @@ impl<'a, K: HashKind> Case<'a, K> {
                             }
                             Ok(Err(e)) => {
                                 // an error is only acceptable for a stale changeset
-                                if valid {
+                                if valid && !self.ended_by_exhaustion(&format!("{e:#}")) {
                                     self.rep.fail("C12", "nonblocking-error-with-live-session", format!("{ctx}: {e:#}"));
                                 }
                                 None
@@ -1887,7 +1910,7 @@ impl<'a, K: HashKind> Case<'a, K> {
                             None
                         }
                         Ok(Err(e)) => {
-                            if valid {
+                            if valid && !self.ended_by_exhaustion(&format!("{e:#}")) {
                                 self.rep.fail("C12", "nonblocking-error-with-live-session", format!("{ctx}: {e:#}"));
                             }
                             None
@@ -1972,6 +1995,11 @@ impl<'a, K: HashKind> Case<'a, K> {
                     // handed back without a live session: no effect expected; tolerated.
                     self.rep.feat("spurious_deferral", 1);
                     self.check_no_effect("C12", before_root, before_seqn, &ctx);
+                }
+                (Ok(Err(e)), true) if e.contains("bucket exhaustion") => {
+                    // a full hash table is a legitimate refusal; the history ends here
+                    self.rep.feat("histories_ended_by_bucket_exhaustion", 1);
+                    self.sut.dead = true;
                 }
                 (Ok(Err(e)), true) => {
                     self.rep.fail(
